@@ -256,7 +256,7 @@ def run(ctx):
 
     # ---- 2. longer random strings: the alphabet plus classes the code branches on elsewhere
     extra = L.ALPHA + ["[", "]", "\\", "[", "]", "z", "A", "\r", "\x0b", "\t", "é", "あ", ":", "a", "b", "/", " ", "x"]
-    n_rand = 6000 if ctx.quick else 200000
+    n_rand = 6000 if ctx.quick else 60000
     out = L.Out()
     for _ in range(n_rand):
         s = "".join(rng.choice(extra) for _ in range(rng.randint(6, 24)))
@@ -276,7 +276,7 @@ def run(ctx):
     # ---- 3. documents from the tag grammar (nested and overlapping tags, escaped leaves)
     console = Console(width=80, color_system="truecolor", force_terminal=True, legacy_windows=False)
     null = Style.null()
-    n_docs = 7000 if ctx.quick else 150000
+    n_docs = 7000 if ctx.quick else 60000
     for i in range(n_docs):
         malformed = rng.random() < 0.2
         mk, toks = gen_doc(rng, malformed)
